@@ -9,7 +9,8 @@ MUTATING = {"open_w", "mkdir", "unlink", "rmdir", "rename", "chmod", "symlink", 
 DIR_MODES = [0o755, 0o555, 0o666, 0o000, 0o311, 0o700]
 FILE_MODES = [0o644, 0o600, 0o444, 0o000, 0o755]
 OPS = ["uncached", "cached-delete", "trait-recreate", "trait-migrate-recreate"]
-LINK_KINDS = ["in-file", "in-dir", "sib-file", "sib-dir", "canary-file", "canary-dir", "abs-canary-file", "abs-canary-dir", "dangling", "self", "mutual", "up", "layers-root"]
+LINK_KINDS = ["in-file", "in-dir", "sib-file", "sib-dir", "canary-file", "canary-dir", "abs-canary-file", "abs-canary-dir", "dangling", "self", "mutual", "up", "layers-root",
+              "hard-canary-file", "hard-sib-file"]      # hard links: a second name of an inode that lives outside the layer (mode/content changes would show there)
 TOP_KINDS = ["dir", "dir", "dir", "link-sibling-dir", "link-canary-dir", "link-canary-file", "link-dangling", "link-abs-canary-dir", "link-canary-empty-dir", "link-sibling-empty-dir"]
 
 
@@ -59,6 +60,20 @@ def make_case(r, root, op):
     if top == "dir":
         os.mkdir(ldir)
         build_tree(r, ldir, 1, links, chmods)
+        if r.random() < 0.02:
+            # big: a chain of 60 nested directories and a directory with several hundred entries
+            deep = ldir
+            for i in range(60):
+                deep = os.path.join(deep, "n%d" % i)
+                os.mkdir(deep)
+            links.append((os.path.join(deep, "l-out"), r.choice(["canary-dir", "sib-dir", "hard-canary-file"])))
+            wide = os.path.join(ldir, "wide")
+            os.mkdir(wide)
+            for i in range(r.randint(300, 700)):
+                with open(os.path.join(wide, "w%d" % i), "wb") as f:
+                    f.write(b"w")
+            links.append((os.path.join(wide, "l-out"), "canary-dir"))
+            chmods.append(("chmod", wide, r.choice(DIR_MODES)))
         chmods.append(("chmod", ldir, r.choice([0o755, 0o555, 0o700, 0o311])))
     else:
         tgt = {"link-sibling-dir": "sib/d", "link-canary-dir": "../canary/d", "link-canary-file": "../canary/precious", "link-dangling": "nowhere",
@@ -66,6 +81,10 @@ def make_case(r, root, op):
         os.symlink(tgt, ldir)
     kinds = set()
     for p, kind in links:
+        if kind.startswith("hard-"):
+            os.link(os.path.join(canary, "ro") if kind == "hard-canary-file" else os.path.join(layers, "sib", "d", "file"), p)
+            kinds.add(kind)
+            continue
         rel_up = os.path.relpath(root, os.path.dirname(p))
         tgt = {"in-file": "f0", "in-dir": ".", "sib-file": os.path.join(rel_up, "layers/sib/precious"), "sib-dir": os.path.join(rel_up, "layers/sib/d"),
                "canary-file": os.path.join(rel_up, "canary/precious"), "canary-dir": os.path.join(rel_up, "canary/d"),
@@ -214,7 +233,7 @@ def run(tier, seed, work):
         res.inconclusive.append("cannot drop privileges with setpriv: permission semantics cannot be exercised")
         res.evaluations = 0
         return res
-    ntrees = 2400 if tier == "quick" else 16000
+    ntrees = 2400 if tier == "quick" else 40000
     ops = OPS[:2] + OPS[2:] if tier == "thorough" else OPS
     items = []
     for i in range(ntrees):
